@@ -83,6 +83,14 @@ struct Buf {
     Bytes bytes() const { return Bytes(p(), p() + n); }
 };
 
+// exact-size heap copy without padding: an over-read by the library hits an ASan red zone (asan variants)
+struct Exact {
+    uint8_t *p; size_t n;
+    explicit Exact(const Bytes &b) : n(b.size()) { p = (uint8_t *)malloc(n ? n : 1); if (n) memcpy(p, b.data(), n); }
+    ~Exact() { free(p); }
+    Exact(const Exact &) = delete; Exact &operator=(const Exact &) = delete;
+};
+
 // Run-level epilogue shared by all worlds: leaks, canaries, bad returns, unexpected error callbacks.
 void monitors_epilogue(Result &r, int64_t expected_illegal, int64_t expected_error);
 
